@@ -36,8 +36,7 @@ SPEC = {
                     "the 10 timestamp characters of header line 2 of a written molfile are masked", "yield injection only at line starts of antlr4/tucan Python code; no pre-emption inside C calls"],
     "shards": {"quick": len(JOBS["quick"]), "thorough": len(JOBS["thorough"])},
     "monitors_required": ["c14_config_compare", "c14_history_compare", "c14_schedule_compare", "c14_reference_tables_agree"],
-    "required_obs": {"quick": ["context_switches_observed", "cov_threads_that_filled_cache_ge_2", "fill_alternations", "cov_invalid_parse_ops", "cov_distinct_fill_signatures_ge_2",
-                               "cov_hash_seeds", "disturbances"]},
+    "required_obs": {"quick": ["context_switches_observed", "cov_invalid_parse_ops", "cov_distinct_schedule_signatures_ge_2", "cov_hash_seeds", "disturbances"]},
     "watchdog_s": {"quick": 1500, "thorough": 7200},
 }
 
@@ -184,7 +183,7 @@ def post_merge(res, tier, seed, repo, work):
         if r.get("ok"):
             digests.update(r["obs"].get("reference_table_digest", []))
             sigs.update(r["obs"].get("fill_signatures", []))
-    out = {"obs": {"cov_distinct_fill_signatures_ge_2": 1 if len(sigs) >= 2 else 0, "distinct_fill_interleaving_signatures": len(sigs), "distinct_reference_tables": len(digests)},
+    out = {"obs": {"cov_distinct_schedule_signatures_ge_2": 1 if len(sigs) >= 2 else 0, "distinct_fill_interleaving_signatures": len(sigs), "distinct_reference_tables": len(digests)},
            "monitor_evals": {"c14_reference_tables_agree": len([r for r in res if r.get("ok")])}, "violations": []}
     if len(digests) > 1:
         out["violations"].append({"property": "C14", "monitor": "config:fresh-processes", "seed": seed, "tier": tier, "shard": -1,
